@@ -3,7 +3,7 @@
 //@ assume: range (precondition): prev.height < u64::MAX and the total difficulty sum fits in u64 (Difficulty::add is plain u64 addition)
 //@ assume: decided here (C12 'a block built from transactions', C14 'the set offered for mining assembles into a block'): TransactionBody::with_output / with_kernel keep every existing entry and add the given one unless an equal one is already present (as multisets), touching nothing else; Block::from_reward builds the block whose body is EXACTLY aggregate(txs) with the reward output and the reward kernel added, whose header has height prev + 1, the version scheduled for THAT height, prev's hash as previous hash, total kernel offset = sum_kernel_offsets([aggregate's offset, prev's total], []) and total difficulty = the given difficulty + prev's total
 //@ assumed_items: 9
-//@ fns: TransactionBody::with_output, TransactionBody::with_kernel, Transaction::with_output, Transaction::with_kernel, Block::from_reward
+//@ fns: TransactionBody::replace_kernel, TransactionBody::replace_inputs, Transaction::replace_kernel, TransactionBody::with_output, TransactionBody::with_kernel, Transaction::with_output, Transaction::with_kernel, Block::from_reward
 #[derive(Clone, Copy, PartialEq, Eq)]
 pub struct Hash { pub v: u64 }
 #[derive(Clone, Copy, PartialEq, Eq)]
@@ -102,8 +102,31 @@ impl TransactionBody {
 //@   before `this.kernels.insert(e, kernel)`:
 //@+    proof { assert(this.kernels@.insert(e as int, kernel).to_multiset() =~= this.kernels@.to_multiset().insert(kernel)) by { vstd::seq_lib::to_multiset_insert(this.kernels@, e as int, kernel); } }
 //@ end
+//@ extract core/src/core/transaction.rs :: impl TransactionBody::replace_kernel
+//@   sigrewrite `(mut self, ` => `(self, `
+//@   rewrite `self.kernels.clear();` => `this.kernels.clear();`
+//@   rewrite `self.kernels.push(kernel);` => `this.kernels.push(kernel);`
+//@   rewrite `\t\tself\n` => `\t\tthis\n`
+//@   at_start:
+//@+    let mut this = self;
+//@   ensures:
+//@+    r.inputs == self.inputs, r.outputs == self.outputs, r.kernels@ =~= seq![kernel],
+//@ end
+//@ extract core/src/core/transaction.rs :: impl TransactionBody::replace_inputs
+//@   sigrewrite `(mut self, inputs: Inputs)` => `(self, inputs: Vec<Input>)`
+//@   rewrite `self.inputs = inputs;` => `this.inputs = inputs;`
+//@   rewrite `\t\tself\n` => `\t\tthis\n`
+//@   at_start:
+//@+    let mut this = self;
+//@   ensures:
+//@+    r.inputs == inputs, r.outputs == self.outputs, r.kernels == self.kernels,
+//@ end
 }
 impl Transaction {
+//@ extract core/src/core/transaction.rs :: impl Transaction::replace_kernel
+//@   ensures:
+//@+    r.offset == self.offset, r.body.inputs == self.body.inputs, r.body.outputs == self.body.outputs, r.body.kernels@ =~= seq![kernel],
+//@ end
 //@ extract core/src/core/transaction.rs :: impl Transaction::with_output
 //@   ensures:
 //@+    r.offset == self.offset, r.body.inputs == self.body.inputs, r.body.kernels == self.body.kernels, ms_add(self.body.outputs@, r.body.outputs@, output),
